@@ -2,9 +2,9 @@
 # usage: confirm_seed.sh <PROP> <k> : confirm a sub-agent's seeded change in a fresh scratch worktree and store it under seeded/
 set -u
 ID=$1; K=$2
-SRC=/tmp/seed-out/$ID
-WT=/tmp/cs-$ID-$K
-OUT=/verif/seeded/$ID-$K
+SRC=${SEED_SRC:-/tmp/seed-out/$ID}
+WT=/tmp/cs-$ID-$K${SEED_SUFFIX:-}
+OUT=/verif/seeded/$ID-${SEED_OUTK:-$K}
 export CARGO_NET_OFFLINE=true CARGO_TARGET_DIR=$WT/target
 git -C /repo worktree add -q --detach $WT HEAD || exit 3
 cd $WT
